@@ -146,6 +146,39 @@ fn main() {
     let mut ev = Evidence::new(id);
     ev.rule = rule.to_string();
     ev.assumptions = assumptions.iter().map(|s| s.to_string()).collect();
+    // seconds-long replay tier: every saved input of this property is re-judged first
+    if only_part.is_none() {
+        let mut files: Vec<PathBuf> = std::fs::read_dir(verif_dir.join("replays"))
+            .map(|rd| rd.filter_map(|e| e.ok().map(|e| e.path())).filter(|p| p.file_name().and_then(|n| n.to_str()).map(|n| n.starts_with(&format!("{}-", id)) && n.ends_with(".json")).unwrap_or(false)).collect())
+            .unwrap_or_default();
+        files.sort();
+        let mut m = engine::Merged::default();
+        let mut replayed = 0u64;
+        for f in files.iter() {
+            let doc: serde_json::Value = match std::fs::read_to_string(f).ok().and_then(|t| serde_json::from_str(&t).ok()) {
+                Some(d) => d,
+                None => continue,
+            };
+            let part_name = doc["part"].as_str().unwrap_or("");
+            if let Some(p) = parts.iter().find(|p| p.name == part_name) {
+                let rec = Rec::new();
+                replayed += 1;
+                match (p.replay)(&doc["case"], &rec, &ctx) {
+                    Ok(()) => {}
+                    Err(msg) => {
+                        println!("VIOLATION property={} replay={}", id, f.display());
+                        println!("  part={} (saved input) message={}", part_name, msg);
+                        ev.violations.push((part_name.to_string(), msg));
+                    }
+                }
+                m.absorb(&rec, 1);
+            }
+        }
+        if replayed > 0 {
+            ev.absorb_part("saved-replays", &m);
+            println!("  replayed {} saved inputs from {}/replays", replayed, verif_dir.display());
+        }
+    }
     for p in parts.iter() {
         if let Some(ref only) = only_part {
             if only != p.name {
